@@ -5,8 +5,9 @@
    Every statement quantifies over the environment [e] (socket credentials,
    allowed mechanisms, keyring, random source, user database, build flavour),
    over all byte chunks / write-out events [evs] and over all lines. *)
-From DV Require Import Lib.Base Auth.Types Gen.AuthTables Auth.Sha1 Wire.Utf8 Auth.Server Auth.Transport Spec.AuthSpec
-  Proofs.AuthInv Proofs.AuthBasics Proofs.AuthShape Proofs.AuthTrace Proofs.AuthTransport Proofs.AuthLex Proofs.AuthRefine Proofs.AuthMain.
+From Coq Require Import ZArith.
+From DV Require Import Lib.Base Auth.Types Gen.AuthTables Auth.Sha1 Wire.Utf8 Auth.Server Auth.Transport Auth.Keyring Spec.AuthSpec Spec.KeyringSpec Proofs.AuthKeyring
+  Proofs.AuthInv Proofs.AuthBasics Proofs.AuthShape Proofs.AuthTrace Proofs.AuthChunk Proofs.AuthTransport Proofs.AuthLex Proofs.AuthRefine Proofs.AuthMain.
 Local Open Scope N_scope.
 
 (* _dbus_auth_do_work always terminates (the out-of-fuel result of the model never occurs) *)
@@ -50,6 +51,17 @@ Theorem C08_no_data_before_begin : forall e evs a, run e auth_init evs = Some a 
   exists ls, fed evs = join_lines ls ++ a_incoming a /\ (unused_bytes a <> None -> in_end_state (a_core a) = true).
 Proof. exact framing. Qed.
 Print Assumptions C08_no_data_before_begin.
+
+(* chunking independence: two conversations that were fed the same bytes -- cut into reads in any way, with the
+   answers written out at any time -- end in the same protocol state (identity included) with the same unprocessed
+   bytes, unless the buffer cap or an abort ended one of them *)
+Theorem C08_chunking_independent : forall e evs1 evs2 a1 a2,
+  run e auth_init evs1 = Some a1 -> run e auth_init evs2 = Some a2 -> fed evs1 = fed evs2 ->
+  a_state (a_core a1) <> NeedDisconnect -> a_state (a_core a1) <> Crashed ->
+  a_state (a_core a2) <> NeedDisconnect -> a_state (a_core a2) <> Crashed ->
+  a_core a1 = a_core a2 /\ a_incoming a1 = a_incoming a2.
+Proof. exact chunking_independent. Qed.
+Print Assumptions C08_chunking_independent.
 
 (* every REJECTED is counted, at most max_failures are ever sent, and the last one ends the conversation *)
 Theorem C08_bounded_rejections : forall e evs a, run e auth_init evs = Some a ->
@@ -112,10 +124,63 @@ Theorem C08_skip_blank_never_aborts : forall asserts s start, skip_blank asserts
 Proof. exact skip_blank_total. Qed.
 Print Assumptions C08_skip_blank_never_aborts.
 
+(* ---------- the cookie store (dbus-keyring.c, Auth/Keyring.v) ---------- *)
+
+(* every line the keyring loads has a non-negative timestamp inside the window [now - 7 min, now + 5 min]
+   (an expired or future-dated line is never loaded), an id in int32 range and a non-empty secret *)
+Theorem C08_keyring_line_sound : forall now l k, parse_key_line now l = Some k ->
+  (0 <= k_time k /\ cookie_kept_at now (k_time k) /\ Z.of_N (k_id k) <= INT32_MAX /\ k_secret k <> [])%Z.
+Proof. exact parse_key_line_sound. Qed.
+Print Assumptions C08_keyring_line_sound.
+
+(* a line the specification calls a cookie line (decimal id, decimal time, hex cookie, single spaces) inside the
+   window is loaded as exactly that cookie *)
+Theorem C08_keyring_line_complete : forall now l id t cookie,
+  spec_cookie_line l = Some (id, t, cookie) -> (Z.of_N id <= INT32_MAX)%Z -> (t <= Z.of_N LONG_MAX)%Z -> cookie_kept_at now t ->
+  parse_key_line now l = Some (mkKey id t cookie).
+Proof. exact parse_key_line_complete. Qed.
+Print Assumptions C08_keyring_line_complete.
+
+(* the converse "only specified lines are loaded" is refuted: "010 100 ab" is cookie 8 (strtol base 0; observation F08c) *)
+Definition C08_keyring_line_full_statement : Prop := keyring_line_full_statement.
+Theorem C08_keyring_line_refuted : ~ C08_keyring_line_full_statement.
+Proof. exact keyring_line_refuted. Qed.
+Print Assumptions C08_keyring_line_refuted.
+
+(* with the handshake environment provided by this keyring: the keyring exists only for a valid context name; a
+   cookie that can authenticate at attempt k is the secret of a key loaded from a line inside the validity window of
+   the moment it was read, or generated by this server, at an attempt j <= k; the announced id is recent *)
+Theorem C08_keyring_context : forall w sock allowed guid fdp asserts puid userdb ctx chal,
+  e_keyring_ok (env_of_world w sock allowed guid fdp asserts puid userdb ctx chal) = true <-> spec_context_ok ctx.
+Proof. exact env_keyring_ok. Qed.
+Print Assumptions C08_keyring_context.
+
+Theorem C08_cookie_only_from_keyring : forall w sock allowed guid fdp asserts puid userdb ctx chal k id,
+  let e := env_of_world w sock allowed guid fdp asserts puid userdb ctx chal in
+  e_cookie e k id <> [] ->
+  exists key j, find_key_by_id (keys_after w k) id = Some key /\ k_id key = id /\
+                e_cookie e k id = hex_encode (k_secret key) /\
+                (j <= k)%N /\ key_origin w j key /\ cookie_kept_at (w_now w j) (k_time key).
+Proof. exact env_cookie_origin. Qed.
+Print Assumptions C08_cookie_only_from_keyring.
+
+Theorem C08_announced_key_recent : forall w sock allowed guid fdp asserts puid userdb ctx chal k id,
+  e_best_key (env_of_world w sock allowed guid fdp asserts puid userdb ctx chal) k = Some id ->
+  exists key, In key (keys_after w k) /\ k_id key = id /\ cookie_recent_at (w_now w k) (k_time key).
+Proof. exact env_best_key_recent. Qed.
+Print Assumptions C08_announced_key_recent.
+
+Theorem C08_no_origin_no_cookie : forall w sock allowed guid fdp asserts puid userdb ctx chal k id,
+  (forall j l key, (j <= k)%N -> In l (w_file w j) -> parse_key_line (w_now w j) l = Some key -> k_id key <> id) ->
+  (forall j, (j <= k)%N -> ~ In id (w_new_ids w j)) ->
+  e_cookie (env_of_world w sock allowed guid fdp asserts puid userdb ctx chal) k id = [].
+Proof. exact env_no_origin_no_cookie. Qed.
+Print Assumptions C08_no_origin_no_cookie.
+
 (* ---------- non-vacuity ---------- *)
 Definition ex_env : env :=
   mkEnv (mkCreds (Some 1000) (Some 77) None) None [102] true true 0 (fun _ => None) [99] true
-        (fun _ => Some 5) (fun _ => [97; 98]) (fun _ => Some [1; 2]).
+        (fun _ => Some 5) (fun _ _ => [97; 98]) (fun _ => Some [1; 2]).
 Definition bytes_of_line (l : bytes) : event := Feed (l ++ [13; 10]).
 (* AUTH EXTERNAL 31303030 / BEGIN authenticates uid 1000 and hands over the rest *)
 Example ex_external_ok :
@@ -139,3 +204,17 @@ Proof. vm_compute. reflexivity. Qed.
 Example ex_lines_ok : lines_ok ex_env core_init [[65;85;84;72]; [66;69;71;73;78]].
 Proof. cbn [lines_ok]. split; [right; split; [vm_compute; discriminate|vm_compute; reflexivity]|].
        split; [right; split; [vm_compute; discriminate|vm_compute; reflexivity]|exact I]. Qed.
+
+(* keyring: "7 990 aabb" at time 1000 is loaded, recent and served; at time 1500 it is expired and a key is generated *)
+Definition ex_world (now : Z) : kworld :=
+  mkWorld (fun _ => now) (fun _ => [[55; 32; 57; 57; 48; 32; 97; 97; 98; 98]]) true (fun _ => true) (fun _ => true) (fun _ => true)
+          (fun _ => [7; 9]) (fun _ => Some [1; 2; 3]).
+Example ex_keyring_fresh : (snd (get_best_key (ex_world 1000) 0 (keyring_new (ex_world 1000))), get_hex_key (keys_after (ex_world 1000) 0) 7)
+  = (Some 7, [97; 97; 98; 98]).
+Proof. vm_compute. reflexivity. Qed.
+Example ex_keyring_expired : (keyring_new (ex_world 1500), snd (get_best_key (ex_world 1500) 0 (keyring_new (ex_world 1500))),
+                              get_hex_key (keys_after (ex_world 1500) 0) 7)
+  = ([], Some 7, [48; 49; 48; 50; 48; 51]).
+Proof. vm_compute. reflexivity. Qed.
+Example ex_spec_line : spec_cookie_line [55; 32; 57; 57; 48; 32; 97; 97; 98; 98] = Some (7, 990%Z, [170; 187]).
+Proof. vm_compute. reflexivity. Qed.
